@@ -397,6 +397,20 @@ def boundary_scripts(path):
                     S, T(10), F, T(10), F,              # data waiting, oldest segment still unacknowledged: nothing may be admitted
                     dict(name="Settle", a=0)]
             scripts.append(dict(meta=dict(cfg=cfg, label="loss-and-fast-%d-%d" % (resend, nodelay)), actions=acts))
+    # Family 'acked-head-lingers' (known finding C02/Drained_AckedHeadLingers; the shortest history, found by TLC in KcpNet at the
+    # thorough bounds): receive window 2, sn 3 overtakes sn 2 while the receiver's queue is full, so ACK(3) carries una=2 and ACK(2)
+    # carries una=3; the reader reads everything; the datagram carrying una=4 is lost; the network heals; nobody has anything to say.
+    def A(name, e=0, a=0, b=0):
+        return dict(name=name, e=e, a=a, b=b)
+    both = [A("Flush", 1), A("Flush", 2)]
+    for upd in (0, 1):
+        cfg = dict(mtu=56, sndwnd=2, rcvwnd=2, nodelay=0, interval=100, resend=0, nc=0, stream=1, acknodelay=0)
+        acts = ([A("Send", 1, 40), A("Flush", 1), A("Tick", 0, 100)] + both + [A("Deliver", 2, 1), A("Recv", 2, 64), A("Tick", 0, 100)] + both +
+                [A("Deliver", 1, 1, 1), A("Deliver", 2, 2), A("Tick", 0, 100)] + both +
+                [A("Deliver", 1, 2), A("Deliver", 1, 1), A("Send", 1, 40), A("Flush", 1), A("Deliver", 2, 2), A("Tick", 0, 100)] + both +
+                [A("Deliver", 2, 1), A("Tick", 0, 100)] + both + [A("Recv", 2, 64)] * 3 +
+                [A("Deliver", 1, 2), A("Deliver", 1, 1), A("Tick", 0, 100)] + both + [A("Drop", 1, 1), dict(name="Settle", a=upd)])
+        scripts.append(dict(meta=dict(cfg=cfg, label="acked-head-lingers-%d" % upd), actions=acts))
     with open(path, "w") as f:
         for sc in scripts:
             f.write(json.dumps(sc) + "\n")
@@ -534,8 +548,9 @@ def check_c04(tier, replay):
         return [("mc_c04_stream.cfg", mc_cfg("stream", spec_inv, maxbytes=80 if th else 40), CFGRECS["stream"]),
                 ("mc_c04_forged.cfg", mc_cfg("stream", spec_inv, forged="ForgedSmall", maxbytes=40, maxtime=300 if th else 200,
                                              drop=1 if th else 0, dup=0, maxforge=2), CFGRECS["stream"]),
-                ("mc_c04_fastcc.cfg", mc_cfg("fastcc", spec_inv, ticks="{10}", maxtime=60 if th else 40, maxbytes=120 if th else 80, maxnet=3,
-                                             drop=2 if th else 1, dup=0), CFGRECS["fastcc"])]
+                ("mc_c04_fastcc.cfg", mc_cfg("fastcc", spec_inv, ticks="{10}", maxtime=40, maxbytes=80, maxnet=3,
+                                             drop=2 if th else 1, dup=0), CFGRECS["fastcc"])]  # thorough: 2.6 M states, 160 s at 8 workers
+                                             # (maxtime 60 / 120 bytes did not finish in 40 min)
 
     def kmc(th):
         # depth-first-ish: the strict clause fails in the known corner within ~0.9 M states
@@ -644,8 +659,8 @@ def check_c18(tier, replay):
 
 # C02
 def check_c02(tier, replay):
-    inv = ["C02_Drained", "C02_Drained_MsgExceedsWindow", "C02_WithinBound", "C01_Prefix", "C05_NoPanic"]
-    known = {"C02_Drained_MsgExceedsWindow": "C02/Drained_MsgExceedsWindow"}
+    inv = ["C02_Drained", "C02_Drained_MsgExceedsWindow", "C02_Drained_AckedHeadLingers", "C02_WithinBound", "C01_Prefix", "C05_NoPanic"]
+    known = {"C02_Drained_MsgExceedsWindow": "C02/Drained_MsgExceedsWindow", "C02_Drained_AckedHeadLingers": "C02/Drained_AckedHeadLingers"}
     spec_inv = ["DrainsWithinBound", "Prefix", "WindowDiscipline"]
 
     def mc(th):
@@ -685,9 +700,9 @@ def check_c02(tier, replay):
 
 # C03
 def check_c03(tier, replay):
-    inv = ["C02_Drained", "C02_Drained_MsgExceedsWindow", "C02_WithinBound", "C01_Prefix", "C04_RcvQueueBounded", "C04_RcvBufBounded",
+    inv = ["C02_Drained", "C02_Drained_MsgExceedsWindow", "C02_Drained_AckedHeadLingers", "C02_WithinBound", "C01_Prefix", "C04_RcvQueueBounded", "C04_RcvBufBounded",
            "C04_SndWindow", "C05_NoPanic"]
-    known = {"C02_Drained_MsgExceedsWindow": "C02/Drained_MsgExceedsWindow"}
+    known = {"C02_Drained_MsgExceedsWindow": "C02/Drained_MsgExceedsWindow", "C02_Drained_AckedHeadLingers": "C02/Drained_AckedHeadLingers"}
     spec_inv = ["DrainsWithinBound", "Prefix", "WindowDiscipline"]
 
     def mc(th):
